@@ -16,6 +16,26 @@ P = {
          'Python sorted() stable; trusted: Lean kernel, driver compilation, harness',
     technique='Lean 4 proof (permutation/sortedness induction) + differential correspondence with dictated schedules',
     ref='§4 C17'),
+ 'C10': dict(
+    text='Lean 4 theorems over TCV.Names.findFull (char-level transcription of _find_task_full_name): a full name always resolves '
+         'to itself, a unique match resolves, any result is a match that is the query itself or a `:`-boundary suffix of every '
+         'other match, exact characterisation of both errors, and order independence under any permutation — for all name lists '
+         'and all query strings. Correspondence: generated colliding name sets x all shorter forms x 3 orders through '
+         '_find_task_full_name, Chain[...]/in/get_task and InputTasks, diffed with the model; structured reference resolver as oracle.',
+    note='the structured reading of "less nested" (namespace/group lists are suffixes) is checked by the oracle on generated '
+         'names; the theorem states the textual boundary form; Python str.split/endswith semantics are modelled',
+    technique='Lean 4 proof (list/permutation lemmas) + differential correspondence',
+    ref='§4 C10'),
+ 'C12': dict(
+    text='The Lean model TCV.Key is the frozen key/path scheme of release 1.4.0 (registry text, inputs text, sha256[:32], path '
+         'components); theorems pin its shape (key_def, key_format, path_shape, side_files). Decided by correspondence: a golden '
+         'corpus of ~1000 (config, task)->key/path lines captured from the pinned commit before any repair must be reproduced by '
+         'the model (from captured parameter descriptions) and by the implementation (rebuilding the spec on the current tree), '
+         'plus generated configurations compared literally and files checked on disk.',
+    note='statements are near-definitional; assurance rests on the golden corpus + correspondence; sha256 validated per run; '
+         '2 of 300 captured specs are excluded because defect F4 changed their dependency graph (tools/filter_golden.py)',
+    technique='Lean 4 frozen executable spec + golden-corpus and differential correspondence',
+    ref='§4 C12'),
 }
 
 checks, na = [], []
